@@ -88,6 +88,12 @@ Apply(st, op) ==
       [] op.op = "mutk" -> [st EXCEPT !.karr = Append(st.karr, Num(9)), !.ret = None] \* k pushBack 9
       [] op.op = "newkj" -> [st EXCEPT !.karr = <<JRef, Num(0)>>, !.ret = None]         \* k = [j, 0] (fresh outer array holding j)
       [] op.op = "mutj" -> [st EXCEPT !.jarr = Append(st.jarr, Num(9)), !.ret = None]   \* j pushBack 9
+      [] op.op = "mutval" ->     \* (m get key) pushBack 9 when an array is stored there: values are references, the stored value follows
+            (LET hit == Lookup(st, op.m, KeyOf(st, op.key)) IN
+             IF hit = {} THEN [st EXCEPT !.ret = None]
+             ELSE LET e == CHOOSE x \in hit : TRUE IN
+                  IF e[2].t # "a" THEN [st EXCEPT !.ret = None]
+                  ELSE [st EXCEPT !.maps[op.m] = (st.maps[op.m] \ {e}) \cup {<<e[1], ArrT(Append(e[2].a, Num(9)))>>}, !.ret = None])
       [] op.op = "mutkeys" -> [st EXCEPT !.ret = None]     \* every array among `keys m` gets an element pushed: the keys were handed out by value
 
 InitState == [maps |-> [m \in MapVars |-> {}], karr |-> <<>>, jarr |-> <<Num(3)>>, ret |-> None]
@@ -105,6 +111,6 @@ KeyCapturedByValue(st, op, st2) ==
     op.op \in {"mutk", "mutj", "mutkeys"} => \A m \in MapVars : Entries(st2, m) = Entries(st, m)
 \* a copy is independent of the original: operations on one map leave all others alone
 CopyIndependent(st, op, st2) ==
-    op.op \in {"set", "del", "fromArray", "create", "copy"} =>
+    op.op \in {"set", "del", "fromArray", "create", "copy", "mutval"} =>      \* (mutval: the copy holds copies of the arrays, too)
         \A m \in MapVars \ {op.m} : Entries(st2, m) = Entries(st, m)
 =============================================================================
